@@ -52,7 +52,12 @@ R = Rules(
         "a quote function with state is decided by interpretation in (c) as well; (i) for every remote whose hostinfo is joined "
         "from a stored (host, port) pair filled from the socket's names, and every class that creates it and hands itself in as "
         "the object scheme and default port are read from, the port the pair denotes under the remote's own scheme is the socket's "
-        "port.  Not decided: value-level round-trip equality over Unicode beyond the representative set, RFC 3986 validity of host "
+        "port; (j) the Uri-Host / Uri-Path / Uri-Query options hold exactly the text stored into them -- value of the option object, the "
+        "Options property both conversions use, and a trip through the wire form (UTF-8) -- decided by running the repository's option "
+        "classes in the interpreter of C01 on text that is not in a normalisation form, mixed case, padded, reserved; (k) no outcome of "
+        "set_request_uri that raises by a test of its own applies to a URI without a documented defect: the path conditions are "
+        "evaluated (regular expressions included) on acceptable URIs covering names, IPv4 / IPv6 literals with zone identifiers and "
+        "ports, escapes and reserved characters.  Not decided: value-level round-trip equality over Unicode beyond the representative set, RFC 3986 validity of host "
         "names, hostinfo of the datagram transports (constant scheme and constant elided port in one class)."
     ),
     rule_text="symbolic summaries (outcomes) of the anchored functions, exception-escape analysis with one re-checked lemma, truth-table comparison of path conditions with reference predicates, finite-domain evaluation of component-closed values, constant evaluation of safe sets, scenario evaluation over the facts a function reads, concrete interpretation of functions with state",
@@ -2026,10 +2031,13 @@ def g(ctx):
     prog = ctx.prog
     gfi = prog.func(GET)
     gex = Exec(prog)
-    gev = Evaluator(prog)
-    _check_quote_nonascii(ctx, gex, gev)
-    # conditions and the authority itself: package callables on the way are executed (see _AuthorityEvaluator)
+    # quote_nonascii's result, the conditions and the authority itself: package callables on the way are executed (see
+    # _AuthorityEvaluator) -- a quote_nonascii that delegates to a module-level callable built by a package factory
+    # (`_q = quote_factory(S)`; a lambda) is decided by running that callable's own body on the byte cover, so any
+    # spelling that keeps exactly the ASCII bytes stays silent and one that escapes ':' / '%' of an (unbracketed, as
+    # hostportsplit delivers it) IP literal or keeps a non-ASCII byte is a wrong result
     gev = _AuthorityEvaluator(prog, Interp(prog))
+    _check_quote_nonascii(ctx, gex, gev)
     extra_params = params(gfi) + [a.arg for a in gfi.node.args.kwonlyargs]
     ctx.need(len(extra_params) == 1, "get_request_uri has parameters other than the (deprecated) local_is_server: %s" % extra_params)
     lis = extra_params[0]
@@ -2368,6 +2376,200 @@ def _check_pair_writer(ctx, ex, ev, sci, wfi, pair):
     return 1
 
 
+
+# ---------------------------------------------------------------------------
+# C16.j -- the options hold exactly the text they are given
+
+# percent-decoded segments / host names as set_request_uri stores them: plain, reserved characters, text that is not in
+# a Unicode normalisation form (combining sequences, singleton decompositions, compatibility ideographs and ligatures),
+# mixed case, white space, characters outside the BMP
+_TEXT_SAMPLES = ("", "a", "temp", "A/b?c&d=e#f%g", "\u00e9", "e\u0301", "A\u030a", "\u00c5", "\u212b", "\u2126", "\uf900", "\ufb01", "n\u0303",
+                 " x ", "\u4e16\u754c", "\U0001f600", "%41", "\u1e9b\u0323", "\u0130", "\u017f")
+
+
+@R.clause("C16.j", "Uri-Host / Uri-Path / Uri-Query options hold exactly the text stored into them (no normalisation, folding or trimming on the way in or out), locally and on the wire")
+def j_options_verbatim(ctx):
+    """Added after an independently written breaking change made StringOption.value a property whose setter stores the NFC
+    form: set_request_uri / get_request_uri were untouched, but the options no longer were the percent-decoded segments,
+    and URIs that differ in a segment's normalisation form collapsed onto one option set.  Necessary condition: both
+    conversions go through the option objects, so for the three options the value read back (from the option object, from
+    the Options property the two functions use, and after a trip through the wire form) is the text stored, and the wire
+    form is its UTF-8.  Decided by running the repository's own classes in the checker's interpreter (the one of C01, whose
+    codec clause C01.e decides the same condition for all value formats) on a sample set -- nothing about the spelling of
+    the classes is assumed."""
+    from . import c01
+    K = c01.K
+    I = c01.interp(ctx)
+    ON = c01.g_(I, "numbers.optionnumbers", "OptionNumber")
+    Options = c01.g_(I, "options", "Options")
+    n = 0
+    for number, prop, plural in ((3, "uri_host", False), (11, "uri_path", True), (15, "uri_query", True)):
+        num = I.call(ON, [number], {})
+        fmt = I.getattr(num, "format")
+        fi = None
+        rows = []
+        for s_ in _TEXT_SAMPLES:
+            raw = s_.encode("utf-8")
+
+            def direct():
+                o = I.call(fmt, [num, s_], {})
+                return I.getattr(o, "value"), bytes(I.call(I.getattr(o, "encode"), [], {}))
+
+            def wire():
+                o = I.call(fmt, [num], {})
+                I.call(I.getattr(o, "decode"), [raw], {})
+                return I.getattr(o, "value")
+
+            def through_options():
+                opt = I.call(Options, [], {})
+                I.setattr(opt, prop, (s_, s_ + "x") if plural else s_)
+                v = I.getattr(opt, prop)
+                return tuple(v) if plural else v
+            r = K.attempt(I, direct)
+            rows.append(("option %d created with %a" % (number, s_), "%a, wire form %s" % (r.value[0], r.value[1].hex()) if r.ok else r.describe(), "%a, wire form %s" % (s_, raw.hex())))
+            r = K.attempt(I, wire)
+            rows.append(("option %d read from %s" % (number, raw.hex()), "%a" % (r.value,) if r.ok else r.describe(), "%a" % (s_,)))
+            r = K.attempt(I, through_options)
+            rows.append(("opt.%s = %a; opt.%s" % (prop, (s_, s_ + "x") if plural else s_, prop), "%a" % (r.value,) if r.ok else r.describe(), "%a" % ((s_, s_ + "x") if plural else s_,)))
+            n += 3
+        df = None
+        for what, got, want in rows:
+            if got != want:
+                df = "%s: got %s, expected %s" % (what, got, want)
+                break
+        # location: the constructor (first method) of the option's value format class, when the model knows it
+        ci = ctx.prog.classes.get(getattr(fmt, "qn", None))
+        while ci is not None and not ci.methods:
+            ci = next((ctx.prog.classes[b] for b in ctx.prog.mro(ci.qn)[1:] if b in ctx.prog.classes and ctx.prog.classes[b].methods), None)
+        fi = None if ci is None else ci.methods.get("__init__") or sorted(ci.methods.values(), key=lambda f: f.node.lineno)[0]
+        ctx.ob("opt.%s is exactly the text stored (value, Options property and wire form)" % prop, df is None, fi, fi.node if fi is not None else None,
+               detail=df, construct="opt.%s verbatim" % prop)
+    ctx.floor("evaluations of string-valued Uri-* options", n, 100)
+
+
+
+# ---------------------------------------------------------------------------
+# C16.k -- acceptable URIs are accepted
+
+# URIs with none of the documented defects (scheme present, no fragment; CoAP: host present, no user-info, port absent
+# or numeric, every escape complete and valid UTF-8), covering what the property quantifies over: names, IPv4 and
+# bracketed IPv6 literals with and without zone identifier (spelled the way hostinfo / get_request_uri spell them, and
+# with the RFC 6874 escape) and port, mixed case, reserved characters and empty segments in path and query, escapes.
+ACCEPTABLE_URIS = (
+    "coap://example.com", "coap://example.com/", "coap://Example.COM:5683/a/b?c=d", "coaps://198.51.100.7:61616/.well-known/core?rt=x*",
+    "coap+tcp://[2001:db8::1]/x", "coaps+tcp://[2001:db8::1]:5684/x//y/?a&&b", "coap://[fe80::1%eth0]/x", "coap://[fe80::1%lo]:5683/",
+    "coap://[fe80::abcd%wlan0]", "coap://[fe80::1%25eth0]/x", "coap+ws://h/a;b/c=d?x=y;z", "coaps+ws://h/%2F%25%C3%A9?%26=%3D",
+    "coap://h/a+b/a:b@c/~._-!$'()*,", "coap://xn--bcher-kva.example/b\u00fccher?\u20ac", "coap://h?q", "http://example.com/x?y=z", "coap://b%C3%BCcher.example/x",
+)
+
+
+def _acceptable(w, coap):
+    """The reference reading of "acceptable" (checker's own urllib; never the repository's code)."""
+    try:
+        u = _up.urlparse(w)
+        u.port
+        for x in u.path.split("/") + u.query.split("&") + [u.hostname or ""]:
+            _up.unquote(x, errors="strict")
+    except ValueError:
+        return None
+    if not u.scheme or u.fragment:
+        return None
+    if u.scheme in coap and (not u.hostname or u.username is not None or u.password is not None):
+        return None
+    return u
+
+
+class _TextEvaluator(Evaluator):
+    """Evaluator that also runs regular expressions: `re.compile(<constant>)` (also as a module-level constant) and the
+    module-level `re.search / match / fullmatch / findall` are evaluated by the checker's own `re` on the pattern text,
+    the methods of the resulting pattern / match objects likewise.  Exact by construction (same pattern language)."""
+
+    _FUNCS = ("compile", "search", "match", "fullmatch", "findall")
+    _PMETH = ("search", "match", "fullmatch", "findall")
+    _MMETH = ("start", "end", "span", "group", "groups", "groupdict")
+
+    def _call(self, e, module, env):
+        import re as _re
+        if not (any(isinstance(a, ast.Starred) for a in e.args) or any(k.arg is None for k in e.keywords)):
+            f = e.func
+            fn = None
+            q = qual_name(self.prog, module, f) if chain(f) else None
+            if q is not None and q.startswith("re.") and q[3:] in self._FUNCS:
+                fn = getattr(_re, q[3:])
+            elif isinstance(f, ast.Attribute) and f.attr in self._PMETH + self._MMETH:
+                try:
+                    recv = self._ev(f.value, module, env)
+                except NormError:
+                    recv = None
+                if (isinstance(recv, _re.Pattern) and f.attr in self._PMETH) or (isinstance(recv, _re.Match) and f.attr in self._MMETH):
+                    fn = getattr(recv, f.attr)
+            if fn is not None:
+                args = [self._ev(a, module, env) for a in e.args]
+                kw = {k.arg: self._ev(k.value, module, env) for k in e.keywords}
+                if not all(isinstance(a, (str, int, _re.Pattern)) for a in args + list(kw.values())):
+                    raise NormError("regular expression applied to a value of the wrong kind")
+                return fn(*args, **kw)
+        return Evaluator._call(self, e, module, env)
+
+
+@R.clause("C16.k", "a URI with none of the documented defects is accepted: no rejecting path of set_request_uri applies to it")
+def k_accepts(ctx):
+    """Added after an independently written breaking change rejected every '%' not followed by two hex digits -- tested on
+    the whole URI text, so the zone identifier of a link-local literal ('[fe80::1%eth0]', the spelling hostinfo and
+    get_request_uri produce) made the URI "malformed".  Necessary condition ("rejected with the documented URL errors and
+    nothing else" / "for every CoAP URI ... decomposing"): the URIs set_request_uri refuses by a test of its own are
+    those with a documented defect.  Decided by evaluation, not by the shape of the tests: every path condition of every
+    outcome that raises outside an exception handler is evaluated (components of urlparse(uri) as the checker's urllib
+    delivers them, everything else -- module constants, regular expressions, helper predicates the executor has expanded
+    -- by the evaluator) on acceptable URIs; an outcome all of whose conditions hold for one of them is a rejection of an
+    acceptable URI.  A condition outside the evaluator's vocabulary leaves that (URI, outcome) pair undecided (noted; the
+    escape analysis of C16.a still refuses what it cannot resolve), so no spelling of the existing tests can be
+    reported: an evaluated condition is the condition's own truth on that URI."""
+    M = _model(ctx)
+    fi = M.fi
+    ev = _TextEvaluator(ctx.prog)
+    rejecting = [o for o in M.plain() if not o.normal and o.end is not None and o.end[0] == "raise"]
+    ctx.floor("outcomes of set_request_uri that reject by a test of their own", len(rejecting), 4)
+    bad = {}
+    decided = undecided = 0
+    for w in ACCEPTABLE_URIS:
+        u = _acceptable(w, M.coap)
+        ctx.need(u is not None, "the rule's own witness %r is not an acceptable URI for the reference reading" % w)
+
+        def close(e):
+            def fn(n):
+                c = M.comp(n)
+                if c is not None and c in ("scheme", "netloc", "path", "params", "query", "fragment", "hostname", "username", "password", "port"):
+                    return ast.Constant(value=getattr(u, c))
+                return None
+            return rewrite(e, fn)
+        env = {M.uri: w}
+        for k, o in enumerate(rejecting):
+            verdict = True
+            for e, pol in o.conds():
+                try:
+                    v = bool(ev.ev(close(e), fi.module, env))
+                except (NormError, EvalRaised):
+                    verdict = None
+                    break
+                if v != pol:
+                    verdict = False
+                    break
+            if verdict is None:
+                undecided += 1
+                continue
+            decided += 1
+            if verdict and k not in bad:
+                bad[k] = w
+    ctx.floor("(acceptable URI, rejecting outcome) pairs decided by evaluation", decided, len(ACCEPTABLE_URIS))
+    if undecided:
+        ctx.note("C16.k: %d (URI, rejecting outcome) pair(s) left undecided: a path condition is outside the evaluator's vocabulary" % undecided)
+    for k, o in enumerate(rejecting):
+        node = o.end[2] if o.end[2] is not None else fi.node
+        ctx.ob("a rejecting path of set_request_uri applies to no URI without a documented defect", k not in bad, fi, node,
+               detail=None if k not in bad else "%r is rejected with %s on the path: %s" % (bad[k], (o.end[1] or "?").split(".")[-1], o.describe()))
+
+
 F_M = "aiocoap/message.py"
 F_U = "aiocoap/util/__init__.py"
 F_Q = "aiocoap/util/uri.py"
@@ -2488,3 +2690,19 @@ R.seed("C16.i", F_T, "None if sockname[1] == self._ctx._default_port else sockna
        "port 5683 elided whatever the scheme of the connection's context")
 R.seed("C16.i", F_T, "None if sockname[1] == self._ctx._default_port else sockname[1]", "None if sockname[1] != self._ctx._default_port else sockname[1]", "elision inverted")
 R.seed("C16.i", "aiocoap/transports/tls.py", "    _default_port = COAPS_PORT\n", "    _default_port = 5683\n", "the TLS contexts elide (and fill in) the port of the plain TCP scheme")
+F_O = "aiocoap/optiontypes.py"
+R.seed("C16.j", F_O, "    def __init__(self, number, value=\"\"):\n        self.value = value\n        self.number = number\n\n    def encode(self):\n        # FIXME",
+       "    def __init__(self, number, value=\"\"):\n        self.value = value.strip()\n        self.number = number\n\n    def encode(self):\n        # FIXME", "string option values trimmed on construction: 'a%20' and 'a' collapse")
+R.seed("C16.j", F_O, "        rawdata = self.value.encode(\"utf-8\")\n        return rawdata", "        rawdata = self.value.casefold().encode(\"utf-8\")\n        return rawdata", "string options case-folded on the wire: /A and /a reach the same resource")
+R.seed("C16.j", F_O, "        self.value = rawdata.decode(\"utf-8\")", "        self.value = rawdata.decode(\"utf-8\", \"replace\").lower()", "received string options lower-cased")
+R.seed("C16.g", F_U, "    return \"\".join(chr(c) if c <= 127 else \"%%%02X\" % c for c in s.encode(\"utf8\"))\n",
+       "    return _quote_regname(s)\n\n\nfrom .uri import quote_factory, unreserved, sub_delims  # noqa: E402\n\n_quote_regname = quote_factory(unreserved + sub_delims + \"/?#[]@\")\n",
+       "quote_nonascii delegates to a factory-built reg-name quoter: ':' and '%' of the unbracketed IPv6 literal hostportsplit delivers are escaped")
+R.seed("C16.k", F_M, "        if parsed.username or parsed.password:\n            raise error.MalformedUrlError(", "        if parsed.username or parsed.password or \"%\" in parsed.netloc:\n            raise error.MalformedUrlError(",
+       "any '%' in the authority refused: zone identifiers and escaped host names can not be addressed")
+R.seed("C16.k", F_M, "        if not parsed.scheme:\n            raise error.IncompleteUrlError()\n", "        if not parsed.scheme or \"+\" in parsed.scheme:\n            raise error.IncompleteUrlError()\n",
+       "scheme test too strict: coap+tcp / coap+ws URIs are refused as incomplete")
+R.seed("C16.k", F_M, "        if not parsed.hostname:\n            raise error.MalformedUrlError(\"CoAP URIs need a hostname\")\n",
+       "        if not parsed.hostname or (parsed.netloc.startswith(\"[\") and len(parsed.hostname.split(\"%\")) > 1):\n            raise error.MalformedUrlError(\"CoAP URIs need a hostname\")\n",
+       "zoned IPv6 literals refused")
+
